@@ -209,10 +209,14 @@ func init() {
 							} else {
 								s.Await(func() bool { return st.fut != nil }, "future-created")
 							}
-							for _, o := range ops {
+							for oi, o := range ops {
 								h := &futOp{thread: ti, op: o}
 								st.hist = append(st.hist, h)
-								s.Point("op-start")
+								if oi == 0 {
+									s.Point("op-start")
+								} else {
+									s.Point("op-next") // boundary between two operations of one thread: a free yield
+								}
 								st.clock++
 								h.inv = st.clock
 								opCtx := context.Background()
